@@ -30,6 +30,7 @@ mod worker_monitor;
 pub(crate) use worker::current_worker_ordinal;
 #[cfg(feature = "verif")]
 pub(crate) use worker::verif_set_worker_ordinal;
+#[cfg(feature = "verif")]
 pub(crate) use worker::verif_current_worker_ordinal;
 pub use worker::GCWorker;
 pub(crate) use worker::GCWorkerShared;
